@@ -115,12 +115,16 @@ Definition called_with (s : vm) (args : list vcell) : Prop :=
   stack_top (stack s) (sp s) (VArgc (len args) :: rev args).
 
 (* -------------------------------------------------------- abstract operations *)
-(* the proper-list reading of an abstract value: its elements, when it is a finite
-   chain of pairs ending in the empty list *)
-Inductive alist (a : astore) : aval -> list aval -> Prop :=
-| alist_nil : alist a (AImm VNil) []
-| alist_cons : forall p x d xs,
-    a_pair a p = Some (x, d) -> alist a d xs -> alist a (ALoc (LPair p)) (x :: xs).
+(* a finite chain of pairs: its elements and the value that ends it (the empty list
+   for a proper list, anything that is not a pair for an improper one).  A circular
+   list has no such chain. *)
+Inductive achain (a : astore) : aval -> list aval -> aval -> Prop :=
+| ac_end : forall v, (forall p, v <> ALoc (LPair p)) -> achain a v [] v
+| ac_cons : forall p x d xs e,
+    a_pair a p = Some (x, d) -> achain a d xs e -> achain a (ALoc (LPair p)) (x :: xs) e.
+
+(* the proper-list reading of an abstract value *)
+Definition alist (a : astore) (v : aval) (xs : list aval) : Prop := achain a v xs (AImm VNil).
 
 (* the k-th tail of a chain of pairs *)
 Inductive atail (a : astore) : aval -> nat -> aval -> Prop :=
